@@ -173,7 +173,9 @@ def body_unit(case):
 # ---------------------------------------------------------------------------------------------
 PROFILE = scenario.profile(maxD=3, extra_budget=(10, 70), cons_x0=("margin",), p_cons=0.35,
                            c_classes=("inside", "on_bound", "on_bound", "outside", "outside", "far"),
-                           max_iter_choices=(None,), tol_mesh_choices=(None, None, 1e-3))
+                           max_iter_choices=(None,), tol_mesh_choices=(None, None, 1e-3),
+                           # a coarse search mesh and a large design make mesh-node collisions inside one candidate set likely
+                           extra_opts=(("search_grid_number", (3, 5), 0.15),), p_fes=0.25, fes_choices=(0, 1, "2D", 10, 64, 128))
 N = {"quick": 192, "thorough": 3000}
 N_UNIT = {"quick": 6000, "thorough": 200000}
 
@@ -216,6 +218,21 @@ def body_run(scn):
                 v.append(viol("e:deterministic-point-evaluated-twice", f"point {np.frombuffer(key).tolist()} evaluated at calls {idx[:6]} "
                               f"(phases {[tr.calls[i - 1]['phase'] for i in idx[:6]]})"))
                 break
+        evals += 1
+    # (c, run form) the initial design handed on for evaluation is pairwise distinct: no two design evaluations coincide
+    # (a coincidence with the starting point is the known 'already evaluated' finding and is not counted here)
+    init_calls = [c for c in tr.calls if c["phase"] == "init"]
+    if len(init_calls) > 2:
+        x0b = init_calls[0]["x"].tobytes()
+        seen_d = {}
+        for c in init_calls[1:]:
+            kx = c["x"].tobytes()
+            if kx == x0b:
+                continue
+            if kx in seen_d:
+                v.append(viol("c:design-points-not-distinct", f"initial-design evaluations {seen_d[kx]} and {c['i']} are at the same point {c['x'].tolist()}"))
+                break
+            seen_d[kx] = c["i"]
         evals += 1
     labs = harness.run_labels(scn, tr) + ["run"]
     onb = any(c in ("on_bound", "outside", "far") for c in scn["target"].get("ccls", []))
